@@ -1,5 +1,6 @@
 import FluentProofs.ConstTieResolver
 import FluentProofs.Props.C14
+import FluentProofs.MemoConcPure
 import FluentModel.Resolver
 /-!
 # C15 — a concurrent bundle formats the same from many threads as from one
@@ -83,4 +84,65 @@ theorem C15_concurrent_eq_sequential (env : Env) (fuel : Nat) (progs : List (Lis
       · exact ih outs hlen h
     · exact ih outs hlen h
 
+end FluentProofs.C15
+
+/-! ## lock-granularity corollary of C14 (the thread-safe formatter memoizer)
+
+`X` is `Memoizable::construct` of every formatter type over an arbitrary external world; here it is *pure*
+(`hpure`: its result is a function `f` of language, type and arguments – `PluralRules::construct` is) and the
+callbacks' results do not depend on the world (`hcb`; `|pr| pr.0.select(..)` is a function of the instance).
+Model and schedules as in C14 (`FluentModel.Memo.cstep`: one explicit lock, a schedule is any list of thread
+ids).  Real thread schedules are sampled by the harness, not enumerated. -/
+namespace FluentProofs.C15
+open FluentModel.Memo
+
+section MemoLock
+variable {σ L τ α ι ε ρ : Type} [DecidableEq τ] [DecidableEq α]
+variable (X : Ext σ L τ α ι ε) (lang : L) (w₀ : σ)
+
+/-- **memoizer lookups are schedule independent.**  For ALL thread programs and ALL schedules:
+(1) whenever the lock is free, every thread's results (in order) are exactly `pureOutcome f lang w₀` – the
+    callback applied to what `construct` returns for the key, or `construct`'s error – of the lookups that
+    thread has acquired so far;
+(2) in any state where no thread is unfinished, thread `t`'s results are `pureOutcome` mapped over `t`'s whole
+    program, which is also what a single-threaded run of that program alone on a cold memoizer returns. -/
+theorem C15_lookups_schedule_independent (f : L → τ → α → Except ε ι)
+    (hpure : ∀ w l t a, (X.construct w l t a).1 = f l t a)
+    (progs : List (List (Op σ τ α ι ρ)))
+    (hcb : ∀ p ∈ progs, ∀ op ∈ p, ∀ i w w', (op.cb i w).1 = (op.cb i w').1) (sched : List Nat) :
+    let s : CState σ L τ α ι ε ρ := FluentProofs.C14.cafter X lang w₀ progs sched
+    (s.lock = none → ∀ t, (s.threads t).results.reverse = (acqOf t s.acq).map (pureOutcome f lang w₀)) ∧
+    ((∀ t, ¬ unfinished s t) → ∀ t,
+      (s.threads t).results.reverse = (progOf progs t).map (pureOutcome f lang w₀) ∧
+      (s.threads t).results.reverse = (runOps X lang (progOf progs t) LMemo.empty w₀).1) := by
+  intro s
+  refine ⟨fun hl t => lookups_schedule_independent X lang w₀ f hpure progs hcb sched hl t, ?_⟩
+  intro hf t
+  exact ⟨complete_results_schedule_independent X lang w₀ f hpure progs hcb sched hf t,
+    complete_results_eq_single_thread X lang w₀ f hpure progs hcb sched hf t⟩
+
+/-- after *any* schedule prefix followed by the completing schedule of `C14_completion`, thread `t` holds the
+pure outcomes of its program – the same list for every schedule -/
+theorem C15_lookups_after_completion (f : L → τ → α → Except ε ι)
+    (hpure : ∀ w l t a, (X.construct w l t a).1 = f l t a)
+    (progs : List (List (Op σ τ α ι ρ)))
+    (hcb : ∀ p ∈ progs, ∀ op ∈ p, ∀ i w w', (op.cb i w).1 = (op.cb i w').1) (sched : List Nat) (t : Nat) :
+    ((FluentProofs.C14.cafter X lang w₀ progs
+        (sched ++ roundRobin progs.length (3 * (progs.map List.length).sum)) :
+        CState σ L τ α ι ε ρ).threads t).results.reverse =
+      (progOf progs t).map (pureOutcome f lang w₀) :=
+  complete_results_schedule_independent X lang w₀ f hpure progs hcb _
+    (fun t' => FluentProofs.C14.C14_completion X lang w₀ progs sched t') t
+
+/-- **no deadlock, no livelock** at the memoizer: in every reachable state an unfinished thread implies an
+enabled thread, and round-robin for `3 × (number of lookups)` rounds after any prefix finishes every thread -/
+theorem C15_no_deadlock (progs : List (List (Op σ τ α ι ρ))) (sched : List Nat) :
+    (∀ t, unfinished (FluentProofs.C14.cafter X lang w₀ progs sched : CState σ L τ α ι ε ρ) t →
+      ∃ t', enabled (FluentProofs.C14.cafter X lang w₀ progs sched : CState σ L τ α ι ε ρ) t') ∧
+    (∀ t, ¬ unfinished (FluentProofs.C14.cafter X lang w₀ progs
+        (sched ++ roundRobin progs.length (3 * (progs.map List.length).sum)) : CState σ L τ α ι ε ρ) t) :=
+  ⟨fun t hu => FluentProofs.C14.C14_deadlock_free X lang w₀ progs sched t hu,
+   fun t => FluentProofs.C14.C14_completion X lang w₀ progs sched t⟩
+
+end MemoLock
 end FluentProofs.C15
